@@ -350,6 +350,57 @@ pub fn configs(prop: &str, thorough: bool) -> Vec<(Cfg, Option<usize>)> {
                 let depth = if n == "capmax" { Some(if thorough { 5 } else { 3 }) } else { None };
                 out.push((c, if must_fail { Some(0) } else { depth }));
             }
+            // a cap of 1000 (percentages of the cap are whole numbers): the supply must stop at the cap exactly
+            {
+                let mut c = Cfg::base("C13/cap1000-near-the-cap");
+                c.actors = actors.clone();
+                c.props = p.clone();
+                c.initial = vec![(4, 995)];
+                c.mint = Some((0, Some(1000)));
+                c.senders = vec![4];
+                c.recipients = vec![0];
+                c.minters = vec![0, 3];
+                c.mint_to = vec![4];
+                c.amounts = vec![1];
+                c.mint_amounts = vec![1, 5, 6, 10, 15];
+                c.kinds = kinds(&["Mint", "Burn", "UpdateMinter"]);
+                c.wasm_admin = Some(3);
+                out.push((c, None));
+            }
+            // initial balances whose sum does not fit into u128 under a cap of u128::MAX
+            {
+                let mut c = Cfg::base("C13/instantiate/sum-beyond-u128-under-cap-max");
+                c.actors = actors.clone();
+                c.props = p.clone();
+                c.initial = vec![(4, MAX - 5), (3, 10)];
+                c.mint = Some((0, Some(MAX)));
+                c.minters = vec![0];
+                c.mint_to = vec![4];
+                c.mint_amounts = vec![1];
+                c.senders = vec![4];
+                c.recipients = vec![0];
+                c.amounts = vec![1];
+                c.kinds = kinds(&["Mint", "Burn"]);
+                out.push((c, Some(2)));
+            }
+            // the minter approves a spender on its OWN holdings: that is no licence to mint
+            {
+                let mut c = Cfg::base("C13/minter-grants-an-allowance");
+                c.actors = actors.clone();
+                c.props = p.clone();
+                c.initial = vec![(0, 2)];
+                c.mint = Some((0, Some(4)));
+                c.minters = vec![0, 3];
+                c.mint_to = vec![3, 4];
+                c.mint_amounts = vec![1, 2];
+                c.owners = vec![0];
+                c.spenders = vec![3];
+                c.recipients = vec![4];
+                c.amounts = vec![1, 2];
+                c.grant_cap = Some(2);
+                c.kinds = kinds(&["Mint", "Inc", "TransferFrom", "BurnFrom"]);
+                out.push((c, None));
+            }
             // a capped token with more holders than one page (30) carried through an upgrade from every old
             // layout: supply, cap and the room left under the cap must survive
             {
@@ -438,6 +489,7 @@ pub fn configs(prop: &str, thorough: bool) -> Vec<(Cfg, Option<usize>)> {
                     "O0", "O1", "O2", "P00", "P01", "P02", "P03", "P04", "P05", "P06", "P07", "P08", "P09", "P10", "P11",
                 ];
                 let mut c = Cfg::base("C19/upgrade/36-allowances");
+                c.legacy_self_row = true;
                 c.actors = names;
                 c.props = p.clone();
                 c.initial = vec![(0, 2), (1, 2), (2, 2)];
